@@ -943,4 +943,18 @@ Section Proofs.
     exists (new_chunk body). split; [reflexivity|].
     unfold ChunkVerify.data_of, ChunkVerify.chunk_data, new_chunk. cbn [c_data]. now rewrite N.
   Qed.
+
+  (* Every call verifies what it reads now: whatever happened to the world between the calls --
+     also to objects that were read successfully before -- each answer is a verified one. *)
+  Theorem get_history_sound s steps w rs w' :
+    verifying s = true -> get_history H zcomp zdecomp s steps w = (rs, w') ->
+    Forall2 (fun st r => forall c, r = Ok c -> exists b, data_of c = Some b /\ H b = snd st) steps rs.
+  Proof.
+    intros V. revert w rs w'. induction steps as [|[f i] r IH]; intros w rs w'; cbn [get_history].
+    - intros E. injection E as <- _. constructor.
+    - destruct (get s i (f w)) as [x w1] eqn:E1.
+      destruct (get_history H zcomp zdecomp s r w1) as [xs w2] eqn:E2.
+      intros E. injection E as <- _. constructor; [|eapply IH, E2].
+      intros c ->. eapply stack_sound; eauto.
+  Qed.
 End Proofs.
